@@ -44,6 +44,16 @@ CLAIMED = {
          "dechunk(encode(body, chunking)) == body for generated bodies up to 64 KiB; ten kinds of planted malformation must be rejected; arbitrary bytes incl. sizes beyond usize::MAX never panic; GravitinoSource::list_filesets decodes a chunked reply. Exploration; the thorough tier adds a libFuzzer target.",
          "Inputs the strict reader calls 'lenient' (accepted by tolerant decoders) are not judged.", "5 C41"),
 
+ "C17": ("stateful proptest: generated Iceberg table histories written by a minimal independent Iceberg writer (Parquet + Avro manifests + metadata.json generations) and interpreted against a snapshot->live-files->rows model",
+         "Histories of append / remove (tombstones) / overwrite / manifest rewrite (ADDED->EXISTING) / metadata rewrite (equal or newer last-updated-ms) / expire / rollback, format v1/v2, four metadata naming schemes incl. lagging version-hint, four URI forms, with refusal injections (delete files, ORC/AVRO, s3:// and hdfs:// URIs, unknown / empty snapshots): register_iceberg(dir, None|Some(id)) + SELECT * must equal the model's rows for every listed snapshot and every injection must be an error. Exploration.",
+         "The model is updated from what each operation means, never by reading manifests back; the legacy IcebergScanExec operator is not reachable from register_iceberg and is not covered.", "5 C17"),
+ "C19": ("stateful proptest: write / query / rewrite histories over one path with controlled length and mtime (virtual clock via set_modified), executed in sub-process workers under QE_IPC_CACHE=0, unset and 1; model = last written content",
+         "Histories with same-length rewrites (padded footer key/value), preserved / same-second / backwards mtimes, in-place or rename writes, re-registration and external sidecar builds; every query's answer must equal the last written content in all three cache configurations (an error after a rewrite counts as not reading the new content). Exploration.",
+         "QE_IPC_CACHE is read once per process, hence sub-process workers; quick tier is dominated by process spawns.", "5 C19"),
+ "C20": ("configuration differential across sub-process workers (sidecars off / cold unset / fresh build / reused / unset after build) plus repeated multi-process build/read races on cold directories, with a post-race completeness check",
+         "Tables with dictionary-eligible, all-NULL and wide string columns over several row groups: every answer under any sidecar configuration equals the QE_IPC_CACHE=0 answer and every built sidecar equals the Parquet row groups cell for cell; in races (1-8 builder and 1-4 looping reader processes released together) every Ok answer equals the reference and the sidecar directory is complete afterwards. Exploration by repeated-race sampling: the harness does not own the OS schedule between processes (weakest level in this suite; stated in DESIGN 6).",
+         "Reader/builder errors during a race are recorded as labels, only differing answers and incomplete sidecars are violations.", "5 C20"),
+
  "C29": ("generated / damaged / hostile / harvested SQL executed in crash-isolating worker sub-processes with a panic hook and a two-stage watchdog",
          "Every statement (grammar-generated, token-damaged, deeply nested or oversized, and all 800 SQL strings harvested from the repository plus TPC-H Q1-22, plain and damaged) runs in a long-lived worker process against generated tables plus TPC-H SF 0.001; the oracle is: an Ok or Err reply - never a panic (reported with message and location), never a dead worker (signal), never silence (10 s, then 90 s alone in a fresh process). Exploration; the whole harvested corpus is replayed exhaustively on every run.",
          "Hangs are judged by wall clock only after a 90 s solo confirmation on tiny tables; panics that only exist in overflow-checked builds are still panics of the build the repository tests.", "5 C29"),
